@@ -313,9 +313,9 @@ def site_obligations(R, I):
             if not p.ok: continue
             R.paths += 1
             R.obligation(f'{label}: Ok => the returned document verified under the root passed in', p.pc, z3.And(V(P.root, P.served), doc_id(p.payload) == P.served), group='site/' + label)
-            w = [e for e in p.events if e[0] == 'fs.write' and not e[1].endswith('latest_known_time.json')]
-            R.obligation(f'{label}: Ok => the document persisted is the verified one', p.pc,
-                         z3.BoolVal(len(w) == 1 and isinstance(w[0][2], Obj) and w[0][2].kind == 'json' and z3.eq(doc_id(w[0][2].d['val']), P.served)), group='site/persisted-' + label)
+            fname = {'load_timestamp': 'timestamp.json', 'load_snapshot': 'snapshot.json', 'load_targets': 'targets.json'}[label]
+            R.obligation(f'{label}: Ok => the document persisted is the verified one (and nothing else is touched)', p.pc,
+                         z3.BoolVal(p.stored_doc_is('/ds/' + fname, P.served) and p.touched() <= {'/ds/' + fname}), group='site/persisted-' + label)
         R.reach(f'{label}: Ok reachable', next((p.pc for p in paths if p.ok), [z3.BoolVal(False)]))
     P = root_params(2, 1); P['lkt_present'] = z3.BoolVal(False)
     paths = summarize_load_root(I, P); R.check_interp_clean(I, 'load_root')
